@@ -1,4 +1,285 @@
+//! S8 — size families: adversarial generators × sizes up to 1 MiB (C01, C04, C19, C20), and the
+//! doubling test that separates linear from super-linear work (C20).
+
+use crate::call::*;
+use crate::json;
+use crate::model::Model;
+use crate::oracle::*;
 use crate::plan::Plan;
-pub fn add_families(_p: &mut Plan, _q: bool) {}
-pub fn add_scaling(_p: &mut Plan, _q: bool) {}
-pub fn replay(_t: &str) -> i32 { 0 }
+use crate::runner::{Phase, TaskFn};
+
+pub struct Family {
+    pub name: &'static str,
+    pub entry: Entry,
+    pub cfg: u8,
+    pub gen: fn(usize) -> Vec<u8>,
+}
+
+fn rep(pre: &[u8], unit: &[u8], n: usize, post: &[u8]) -> Vec<u8> {
+    let k = n / unit.len().max(1);
+    let mut v = Vec::with_capacity(pre.len() + k * unit.len() + post.len());
+    v.extend_from_slice(pre);
+    for _ in 0..k {
+        v.extend_from_slice(unit);
+    }
+    v.extend_from_slice(post);
+    v
+}
+
+const RQ: &[u8] = b"GET / HTTP/1.1\r\n";
+const RS: &[u8] = b"HTTP/1.1 200 OK\r\n";
+
+pub fn families() -> Vec<Family> {
+    use Entry::*;
+    vec![
+        Family { name: "huge-method", entry: ReqCfg, cfg: 0, gen: |n| rep(b"", b"M", n, b" / HTTP/1.1\r\n\r\n") },
+        Family { name: "huge-target", entry: ReqCfg, cfg: 0, gen: |n| rep(b"GET /", b"a", n, b" HTTP/1.1\r\n\r\n") },
+        Family { name: "huge-utf8-target", entry: ReqCfg, cfg: 0, gen: |n| rep(b"GET /", "é€".as_bytes(), n, b" HTTP/1.1\r\n\r\n") },
+        Family { name: "huge-header-name", entry: ReqCfg, cfg: 0, gen: |n| rep(RQ, b"n", n, b": v\r\n\r\n") },
+        Family { name: "huge-header-value", entry: RespCfg, cfg: 0, gen: |n| rep(b"HTTP/1.1 200 OK\r\nV: ", b"v", n, b"\r\n\r\n") },
+        Family { name: "huge-obs-text-value", entry: RespCfg, cfg: 0, gen: |n| rep(b"HTTP/1.1 200 OK\r\nV: ", b"\xff\x80", n, b"\r\n\r\n") },
+        Family { name: "huge-reason", entry: RespCfg, cfg: 0, gen: |n| rep(b"HTTP/1.1 200 ", b"r ", n, b"\r\n\r\n") },
+        Family { name: "huge-chunk-extension", entry: Chunk, cfg: 0, gen: |n| rep(b"1f;", b"e\n", n, b"\r\n") },
+        Family { name: "chunk-whitespace-run", entry: Chunk, cfg: 0, gen: |n| rep(b"1f", b" \t", n, b";x\r\n") },
+        Family { name: "tiny-headers", entry: ReqCfg, cfg: 0, gen: |n| rep(RQ, b"a:b\r\n", n, b"\r\n") },
+        Family { name: "tiny-headers-parse_headers", entry: Headers, cfg: 0, gen: |n| rep(b"", b"a:b\n", n, b"\n") },
+        Family { name: "empty-value-headers", entry: RespCfg, cfg: 0, gen: |n| rep(RS, b"a:\r\n", n, b"\r\n") },
+        Family { name: "folded-lines", entry: RespCfg, cfg: C_FOLDING, gen: |n| rep(b"HTTP/1.1 200 OK\r\nH: x\r\n", b" y\r\n", n, b"\r\n") },
+        Family { name: "folded-empty-lines", entry: RespCfg, cfg: C_FOLDING, gen: |n| rep(b"HTTP/1.1 200 OK\r\nH:\r\n", b" \r\n", n, b"\r\n") },
+        Family { name: "folded-headers", entry: RespCfg, cfg: C_FOLDING, gen: |n| rep(RS, b"h: a\r\n b\r\n", n, b"\r\n") },
+        Family { name: "folded-whitespace-tail", entry: RespCfg, cfg: C_FOLDING, gen: |n| rep(b"HTTP/1.1 200 OK\r\nH: x", b" \t", n, b"\r\n \r\n\r\n") },
+        Family { name: "ignored-lines", entry: RespCfg, cfg: C_IGNORE_RESP, gen: |n| rep(RS, b"bad line\r\n", n, b"\r\n") },
+        Family { name: "ignored-lines-request", entry: ReqCfg, cfg: C_IGNORE_REQ, gen: |n| rep(RQ, b": x\n", n, b"\r\n") },
+        Family { name: "ignored-long-line", entry: RespCfg, cfg: C_IGNORE_RESP, gen: |n| rep(b"HTTP/1.1 200 OK\r\n(", b"x", n, b"\r\nA: b\r\n\r\n") },
+        Family { name: "ignored-folded-mix", entry: RespCfg, cfg: C_IGNORE_RESP | C_FOLDING, gen: |n| rep(RS, b"a: b\r\n c\x01\r\n d\r\n", n, b"\r\n") },
+        Family { name: "space-before-first-header", entry: RespCfg, cfg: C_SPACE_BEFORE_FIRST, gen: |n| rep(RS, b" \t", n, b"A: b\r\n\r\n") },
+        Family { name: "space-lines-before-first-header", entry: ReqCfg, cfg: C_SPACE_BEFORE_FIRST | C_IGNORE_REQ, gen: |n| rep(RQ, b" (\r\n", n, b"A: b\r\n\r\n") },
+        Family { name: "whitespace-after-colon", entry: ReqCfg, cfg: 0, gen: |n| rep(b"GET / HTTP/1.1\r\nA:", b" \t", n, b"b\r\n\r\n") },
+        Family { name: "whitespace-after-name", entry: RespCfg, cfg: C_SPACES_AFTER_NAME, gen: |n| rep(b"HTTP/1.1 200 OK\r\nA", b" \t", n, b": b\r\n\r\n") },
+        Family { name: "trailing-whitespace-value", entry: ReqCfg, cfg: 0, gen: |n| rep(b"GET / HTTP/1.1\r\nA: b", b" \t", n, b"\r\n\r\n") },
+        Family { name: "whitespace-only-value", entry: ReqCfg, cfg: 0, gen: |n| rep(b"GET / HTTP/1.1\r\nA:", b"\t ", n, b"\r\n\r\n") },
+        Family { name: "many-trailing-whitespace-values", entry: ReqCfg, cfg: 0, gen: |n| rep(RQ, b"A: b      \t      \r\n", n, b"\r\n") },
+        Family { name: "near-miss-htab-every-8", entry: RespCfg, cfg: 0, gen: |n| rep(b"HTTP/1.1 200 OK\r\nV: x", b"vvvvvvv\t", n, b"\r\n\r\n") },
+        Family { name: "near-miss-htab-every-16", entry: RespCfg, cfg: 0, gen: |n| rep(b"HTTP/1.1 200 OK\r\nV: x", b"vvvvvvvvvvvvvvv\t", n, b"\r\n\r\n") },
+        Family { name: "near-miss-htab-every-32", entry: RespCfg, cfg: 0, gen: |n| rep(b"HTTP/1.1 200 OK\r\nV: x", b"vvvvvvvvvvvvvvvvvvvvvvvvvvvvvvv\t", n, b"\r\n\r\n") },
+        Family { name: "near-miss-short-values", entry: RespCfg, cfg: 0, gen: |n| rep(RS, b"k: vvvvvvvvvvvvvvvvvvvvvvvvvvvvvv\r\n", n, b"\r\n") },
+        Family { name: "near-miss-short-targets-names", entry: ReqCfg, cfg: 0, gen: |n| rep(RQ, b"nnnnnnnnnnnnnnnnnnnnnnnnnnnnnnn:v\n", n, b"\n") },
+        Family { name: "leading-empty-lines", entry: ReqCfg, cfg: 0, gen: |n| rep(b"", b"\r\n\n", n, b"GET / HTTP/1.1\r\n\r\n") },
+        Family { name: "leading-empty-lines-response", entry: RespCfg, cfg: 0, gen: |n| rep(b"", b"\n", n, b"HTTP/1.1 200 OK\r\n\r\n") },
+        Family { name: "multi-space-request-line", entry: ReqCfg, cfg: C_MULTI_REQ, gen: |n| {
+            let mut v = rep(b"GET", b" ", n / 2, b"/");
+            v.extend(rep(b"", b" ", n / 2, b"HTTP/1.1\r\n\r\n"));
+            v
+        } },
+        Family { name: "multi-space-status-line", entry: RespCfg, cfg: C_MULTI_RESP, gen: |n| {
+            let mut v = rep(b"HTTP/1.1", b" ", n / 2, b"200");
+            v.extend(rep(b"", b" ", n / 2, b"OK\r\n\r\n"));
+            v
+        } },
+    ]
+}
+
+/// Variants of one generated input: complete, truncated (last 1 and 3 bytes missing), and ending
+/// in an error (last line end replaced by a control byte).
+fn variants(full: &[u8]) -> Vec<(&'static str, Vec<u8>)> {
+    let mut v = vec![("complete", full.to_vec())];
+    if full.len() > 3 {
+        v.push(("truncated-1", full[..full.len() - 1].to_vec()));
+        v.push(("truncated-3", full[..full.len() - 3].to_vec()));
+        let mut e = full.to_vec();
+        let l = e.len();
+        e[l - 3] = 0x01;
+        v.push(("error-at-end", e));
+        let mut e = full.to_vec();
+        e.extend_from_slice(b"trailing body bytes \x00\r\n\r\n");
+        v.push(("with-body", e));
+    }
+    v
+}
+
+fn descriptor(fam: usize, size: usize, variant: &str, cap: u32) -> String {
+    format!("family={} size={} variant={} cap={}", fam, size, variant, cap)
+}
+
+fn run_one(ck: &mut Checker, fam: usize, f: &Family, size: usize) {
+    let full = (f.gen)(size);
+    let nh_max = (size / 3 + 8) as u32;
+    for (vname, input) in variants(&full) {
+        for cap in [0u32, 1, nh_max] {
+            if f.entry == Entry::Chunk && cap != 0 {
+                continue;
+            }
+            let lane = Lane::new(f.entry, f.cfg, cap);
+            let mut m = Model::for_entry(lane.entry, lane.cfg, lane.cap);
+            m.feed(&input);
+            let d = descriptor(fam, size, vname, cap);
+            ck.caller.slot.begin_desc(&lane.encode(), &d);
+            let o = ck.caller.call_unjournalled(&lane, &input);
+            ck.caller.slot.end();
+            ck.stats.nodes += 1;
+            ck.stats.max_len = ck.stats.max_len.max(input.len() as u64);
+            ck.stats.record(&o);
+            let before = ck.nviol;
+            ck.relation_tag = "family";
+            // the model comparison is always armed here: a size family whose outcome is not the
+            // expected one would make the run vacuous
+            let ok = ck.judge(&lane, &input, &o, Some(&m), None);
+            ck.relation_tag = "none";
+            if !ok && ck.nviol > before {
+                // replace the (huge) input of the recorded violation by its descriptor
+                if let Some(v) = ck.violations.last_mut() {
+                    if v.input.len() > 4096 {
+                        v.input = d.clone().into_bytes();
+                    } else {
+                        v.relation = "none".into();
+                    }
+                }
+            }
+            if std::mem::discriminant(&o.st) != std::mem::discriminant(&m.status()) && ck.armed & O_LANG == 0 {
+                ck.violation(
+                    format!("size family {} ({}): outcome {:?} differs from the reference model's {:?}", f.name, d, o.st, m.status()),
+                    &lane, d.as_bytes(), describe_obs(&o), describe_model(&m.out()), None,
+                );
+                if let Some(v) = ck.violations.last_mut() {
+                    v.relation = "family".into();
+                }
+            }
+            if ck.full() {
+                return;
+            }
+        }
+    }
+}
+
+pub fn add_families(p: &mut Plan, q: bool) {
+    let sizes: Vec<usize> = if q { vec![4 << 10, 64 << 10] } else { vec![4 << 10, 64 << 10, 1 << 20] };
+    let n = families().len();
+    let mut tasks: Vec<TaskFn> = Vec::new();
+    for &size in &sizes {
+        for fam in 0..n {
+            tasks.push(Box::new(move |ck: &mut Checker| {
+                let fs = families();
+                run_one(ck, fam, &fs[fam], size);
+            }));
+        }
+    }
+    p.phases.push(Phase { label: format!("S8: {} adversarial size families × sizes {:?} × 5 variants × capacities 0/1/enough", n, sizes), backend: Backend::Native, tasks });
+    p.bounds.push(format!("S8: {} generators × sizes {:?} bytes × variants complete/truncated-1/truncated-3/error-at-end/with-body × capacities 0, 1, enough", n, sizes));
+}
+
+fn ops(c: &httparse::_verif::counters::Counters) -> u64 {
+    c.next + c.peek + c.peek_ahead + c.peek_n + c.as_ref + c.slice + c.advance + c.set_cursor
+}
+
+/// C20: cursor operations at sizes N, 2N, 4N; the second increment may not be much more than
+/// twice the first (a quadratic rescan makes it four times the first).
+pub fn add_scaling(p: &mut Plan, q: bool) {
+    let base = if q { 16usize << 10 } else { 128 << 10 };
+    let n = families().len();
+    let mut tasks: Vec<TaskFn> = Vec::new();
+    for fam in 0..n {
+        tasks.push(Box::new(move |ck: &mut Checker| {
+            let fs = families();
+            let f = &fs[fam];
+            for vi in 0..3usize {
+                let mut counts = Vec::new();
+                let mut vname = "";
+                for mult in [1usize, 2, 4] {
+                    let full = (f.gen)(base * mult);
+                    let (vn, input) = variants(&full).swap_remove(vi);
+                    vname = vn;
+                    let cap = (base * mult / 3 + 8) as u32;
+                    let lane = Lane::new(f.entry, f.cfg, cap);
+                    let d = descriptor(fam, base * mult, vn, cap);
+                    ck.caller.slot.begin_desc(&lane.encode(), &d);
+                    let o = ck.caller.call_unjournalled(&lane, &input);
+                    ck.caller.slot.end();
+                    ck.stats.nodes += 1;
+                    counts.push((ops(&o.counters), o.counters.advance_bytes, input.len()));
+                }
+                let d1 = counts[1].0 as i64 - counts[0].0 as i64;
+                let d2 = counts[2].0 as i64 - counts[1].0 as i64;
+                ck.stats.pairs_compared += 1;
+                if d2 as f64 > 2.2 * d1 as f64 + 64.0 {
+                    let lane = Lane::new(f.entry, f.cfg, 0);
+                    let d = format!("scaling family={} base={} variant={}", fam, base, vname);
+                    ck.relation_tag = "scaling";
+                    ck.violation(
+                        format!("cursor operations grow super-linearly on family {}: sizes {}/{}/{} -> {}/{}/{} operations", f.name, counts[0].2, counts[1].2, counts[2].2, counts[0].0, counts[1].0, counts[2].0),
+                        &lane, d.as_bytes(), format!("increments {} then {}", d1, d2), "second increment <= 2.2 x first".into(), None,
+                    );
+                    ck.relation_tag = "none";
+                }
+            }
+        }));
+    }
+    p.phases.push(Phase { label: format!("S8: doubling test, {} families × 3 variants × sizes {}·(1,2,4)", n, base), backend: Backend::Native, tasks });
+    p.bounds.push(format!("S8 scaling: cursor-operation counts at N, 2N, 4N with N = {} bytes for {} families × 3 variants; requires ops(4N)-ops(2N) <= 2.2·(ops(2N)-ops(N)) + 64", base, n));
+}
+
+fn get_kv(d: &str, k: &str) -> Option<String> {
+    d.split_whitespace().find_map(|t| t.strip_prefix(&format!("{}=", k)).map(|s| s.to_string()))
+}
+
+pub fn replay(text: &str) -> i32 {
+    let prop = json::get_str(text, "property").unwrap_or_default();
+    let d = json::get_str(text, "descriptor").or_else(|| json::get_str(text, "input")).unwrap_or_default();
+    let armed = json::get_num(text, "armed").unwrap_or(0) as u32;
+    let fam: usize = get_kv(&d, "family").and_then(|s| s.parse().ok()).unwrap_or(0);
+    let fs = families();
+    if fam >= fs.len() {
+        eprintln!("unknown family in descriptor {:?}", d);
+        return 2;
+    }
+    let f = &fs[fam];
+    let journal = std::sync::Arc::new(crate::journal::Journal::anonymous());
+    let caller = Caller::new(journal.slot(0), 5 << 20, 2_000_000);
+    let mut ck = Checker::new(&prop, armed, caller);
+    ck.limit = 100;
+    println!("replaying {} on size family {} ({})", prop, f.name, d);
+    if d.starts_with("scaling") {
+        let base: usize = get_kv(&d, "base").and_then(|s| s.parse().ok()).unwrap_or(16 << 10);
+        let vname = get_kv(&d, "variant").unwrap_or_else(|| "complete".into());
+        let mut counts = Vec::new();
+        for mult in [1usize, 2, 4] {
+            let full = (f.gen)(base * mult);
+            let input = variants(&full).into_iter().find(|v| v.0 == vname).map(|v| v.1).unwrap_or(full);
+            let lane = Lane::new(f.entry, f.cfg, (base * mult / 3 + 8) as u32);
+            let o = ck.caller.call_unjournalled(&lane, &input);
+            println!("  size {:>8}: {:?} {} cursor operations, {} bytes travelled", input.len(), o.st, ops(&o.counters), o.counters.advance_bytes);
+            counts.push(ops(&o.counters) as i64);
+        }
+        let (d1, d2) = (counts[1] - counts[0], counts[2] - counts[1]);
+        if d2 as f64 > 2.2 * d1 as f64 + 64.0 {
+            println!("  VIOLATED : increments {} then {}: super-linear", d1, d2);
+            return 1;
+        }
+        return 0;
+    }
+    let size: usize = get_kv(&d, "size").and_then(|s| s.parse().ok()).unwrap_or(4096);
+    let vname = get_kv(&d, "variant").unwrap_or_else(|| "complete".into());
+    let cap: u32 = get_kv(&d, "cap").and_then(|s| s.parse().ok()).unwrap_or(0);
+    let full = (f.gen)(size);
+    let input = variants(&full).into_iter().find(|v| v.0 == vname).map(|v| v.1).unwrap_or(full);
+    let lane = Lane::new(f.entry, f.cfg, cap);
+    let mut m = Model::for_entry(lane.entry, lane.cfg, lane.cap);
+    m.feed(&input);
+    let o = ck.caller.call_unjournalled(&lane, &input);
+    println!("  call     : {}", lane.describe());
+    println!("  input    : {} bytes, {}", input.len(), printable(&input[..input.len().min(80)]));
+    println!("  observed : {}", describe_obs(&o));
+    println!("  model    : {:?}", m.status());
+    let ok = ck.judge(&lane, &input, &o, Some(&m), None);
+    let class_ok = std::mem::discriminant(&o.st) == std::mem::discriminant(&m.status());
+    for v in &ck.violations {
+        println!("  VIOLATED : {}", v.what);
+    }
+    if !class_ok {
+        println!("  VIOLATED : outcome differs from the reference model");
+    }
+    if ok && class_ok {
+        0
+    } else {
+        1
+    }
+}
